@@ -42,7 +42,8 @@ def run(tier, v):
         r = vlib.tlc("MC_Pool", pid=PID, workers=8, env={"VERIF_SCEN": s}, timeout=1800)
         if r.inv_violated:
             raise vlib.ToolError("Pool.tla violates %s in scenario %s" % (r.inv_violated, s))
-        vlib.require_no_zero_actions(r, ignore=("Shutdown",))
+        # no shutdown in these scenarios; with queues of capacity 0 nothing is ever queued, so no worker takes anything
+        vlib.require_no_zero_actions(r, ignore=("Shutdown", "WGone") + (("WRecv", "WFill", "WFillDone", "WProc") if s == "c18_cap0" else ()))
         statesA += r.distinct
         transA += r.generated
     r = vlib.tlc("MC_Pool", pid=PID, workers=8, env={"VERIF_SCEN": "c10_directed"}, timeout=1800)
